@@ -242,3 +242,42 @@ def split_factorizations(path):
         f.write("\n".join(lines) + "\n")
     outs = pipe.prepare(tmp)
     return outs
+
+
+# ---------------------------------------------------------------- the caller's workspace as a two-ended stack (SluStack)
+def stack_events(path):
+    """the Stk* events of an executed script, in order (they are logged under the stack lock with a global sequence number)"""
+    out = []
+    with open(path) as f:
+        for ln in f:
+            if ln.startswith('{"e":"Stk'):
+                r = json.loads(ln)
+                out.append({"e": r["e"], "a": r["a"]})
+    return out
+
+
+def validate_stack(workdir, name, path, timeout=300):
+    """TLC-validate the Stk* events of one process against SluStack (every step recomputed from the state before, StackOK on every state).
+    Returns (result or None when the script never used a caller workspace, number of events)."""
+    evs = stack_events(path)
+    if not evs:
+        return None, 0
+    tlc.stage(workdir)
+    tp = os.path.join(workdir, name + ".stk.ndjson")
+    with open(tp, "w") as f:
+        for e in evs:
+            f.write(json.dumps(e) + "\n")
+    mod = "TRStk_" + name
+    with open(os.path.join(workdir, mod + ".tla"), "w") as f:
+        f.write("---- MODULE %s ----\nEXTENDS SluStackTrace\n====\n" % mod)
+    cfg = os.path.join(workdir, mod + ".cfg")
+    with open(cfg, "w") as f:
+        f.write("SPECIFICATION TSpec\nINVARIANT StackOK\nCONSTRAINT Progress\nPOSTCONDITION Accepted\nCHECK_DEADLOCK FALSE\n")
+    r = tlc.run(workdir, mod, cfg, workers=1, timeout=timeout, env={"TRACE": tp}, xmx="1g")
+    for suffix in (".tla", ".cfg"):
+        try:
+            os.remove(os.path.join(workdir, mod + suffix))
+        except OSError:
+            pass
+    r["events"] = evs
+    return r, len(evs)
